@@ -15,6 +15,10 @@ FLAVOURS = {
     'plain-lto': {'cc': 'gcc', 'cflags': '-O2 -g -DNDEBUG -flto', 'ldflags': '-O2 -g -flto'},      # whole-program optimisation across the library's translation units
     'plain-Os': {'cc': 'gcc', 'cflags': '-Os -g -DNDEBUG'},
     'plain-O3': {'cc': 'gcc', 'cflags': '-O3 -g -DNDEBUG -march=native'},
+    # MemorySanitizer (clang): use of uninitialised memory.  libutf8proc is not instrumented; everything it hands back is declared initialised in
+    # pv_norm.c.  Blocks from the injected allocator are poisoned, and outputs/dependency arguments are probed at the boundaries (pv_msan_probe).
+    'msan':     {'cc': 'clang', 'cflags': '-O1 -g -fno-omit-frame-pointer -fsanitize=memory -fsanitize-memory-track-origins=2 -DNDEBUG'},
+    'msan-wrap': {'cc': 'clang', 'cflags': '-O1 -g -fno-omit-frame-pointer -fsanitize=memory -fsanitize-memory-track-origins=2 -DNDEBUG', 'extra_src': ['pv_wrap.c'], 'ldextra': WRAPS},
     'schar':    {'cc': 'gcc', 'cflags': SAN + ' -DNDEBUG', 'lib_cflags': '-fsigned-char'},
     'uchar':    {'cc': 'gcc', 'cflags': SAN + ' -DNDEBUG', 'lib_cflags': '-funsigned-char'},
     'tsan':     {'cc': 'gcc', 'cflags': '-O1 -g -fsanitize=thread -DNDEBUG'},
@@ -230,7 +234,8 @@ MANIFEST_TEXT['C11'] = {'technique': 'runtime monitoring: scripted clock through
 PROPS['C12'] = {
     'level': 'exploration',
     'runs': [{'name': 'asan', 'flavour': 'asan', 'driver': 'drv_c12'},
-             {'name': 'native', 'flavour': 'asan-native', 'driver': 'drv_c12', 'env': {'PV_SCALE': '15'}, 'shards': 4}],
+             {'name': 'native', 'flavour': 'asan-native', 'driver': 'drv_c12', 'env': {'PV_SCALE': '15'}, 'shards': 4},
+             {'name': 'msan', 'flavour': 'msan', 'driver': 'drv_c12', 'env': {'PV_SCALE': '15', 'PV_NO_STATIC_MONITOR': '1'}, 'shards': 4}],
     'require': {'involution.restored': 20000, 'crypt.under_a_different_feature_mask': 10000, 'cases.all_clauses_held': 20000, 'crypt.mask_source.boundary': 5000, 'crypt.mask_source.random': 5000,
                 'equivalent_spellings.agree(forms really differ)': 1500, 'crypt.password.empty': 500, 'crypt.password.hangul': 500},
 }
@@ -241,7 +246,8 @@ MANIFEST_TEXT['C12'] = {'technique': 'runtime monitoring: PBKDF2 monitor with sc
 PROPS['C09'] = {
     'level': 'exploration',
     'runs': [{'name': 'asan', 'flavour': 'asan', 'driver': 'drv_c09', 'timeout': 1800},
-             {'name': 'native', 'flavour': 'asan-native', 'driver': 'drv_c09', 'env': {'PV_SCALE': '10'}, 'shards': 4, 'timeout': 1800}],
+             {'name': 'native', 'flavour': 'asan-native', 'driver': 'drv_c09', 'env': {'PV_SCALE': '10'}, 'shards': 4, 'timeout': 1800},
+             {'name': 'msan', 'flavour': 'msan', 'driver': 'drv_c09', 'env': {'PV_SCALE': '10', 'PV_NO_STATIC_MONITOR': '1'}, 'shards': 4, 'timeout': 1800}],
     'require': {'outcome.NUM_WORDS': 1000, 'outcome.LANG': 1000, 'outcome.MULT_LANG': 1000, 'outcome.unique.OK': 1000, 'outcome.unique.ERR_CHECKSUM': 1000, 'outcome.unique.ERR_UNSUPPORTED': 1000,
                 'armed.auto.ERR_MEMORY': 1000, 'armed.memory_before_unsupported': 300, 'armed.checksum_before_memory': 300, 'ambiguous.constructed': 500,
                 'multi3.constructed': 500, 'multi3.phrases_recognised_by_3_languages': 200},
@@ -255,6 +261,7 @@ PROPS['C14'] = {
     'runs': [{'name': 'asan', 'flavour': 'asan', 'driver': 'drv_c14', 'timeout': 1800},
              {'name': 'asan-dbg', 'flavour': 'asan-dbg', 'driver': 'drv_c14', 'env': {'PV_SCALE': '25'}, 'shards': 6, 'timeout': 1800},
              {'name': 'native', 'flavour': 'asan-native', 'driver': 'drv_c14', 'env': {'PV_SCALE': '15'}, 'shards': 4, 'timeout': 1800},
+             {'name': 'msan', 'flavour': 'msan', 'driver': 'drv_c14', 'env': {'PV_SCALE': '25', 'PV_NO_STATIC_MONITOR': '1', 'PV_SKIP_SECTIONS': 'huge'}, 'shards': 4, 'timeout': 1800},
              {'name': 'memcheck', 'flavour': 'plain', 'driver': 'drv_c14', 'env': {'PV_SCALE': '4'}, 'shards': 12, 'tiers': ('thorough',), 'log_scan': 'memcheck',
               'wrapper': ['valgrind', '--tool=memcheck', '--quiet', '--error-exitcode=0', '--track-origins=no', '--undef-value-errors=yes'], 'timeout_thorough': 7200},
              {'name': 'fuzz-phrase', 'kind': 'fuzz', 'flavour': 'fuzz', 'driver': 'fuzz_api', 'mode': 0, 'runs_quick': 150000, 'runs_thorough': 5000000},
@@ -271,7 +278,8 @@ _LSAN = 'abort_on_error=1:halt_on_error=1:detect_leaks=1:detect_stack_use_after_
 PROPS['C15'] = {
     'level': 'fault_enumeration',
     'exhaustive_possible': True,
-    'runs': [{'name': 'asan-wrap', 'flavour': 'asan-wrap', 'driver': 'drv_c15', 'env': {'ASAN_OPTIONS': _LSAN}}],
+    'runs': [{'name': 'asan-wrap', 'flavour': 'asan-wrap', 'driver': 'drv_c15', 'env': {'ASAN_OPTIONS': _LSAN}},
+             {'name': 'msan-wrap', 'flavour': 'msan-wrap', 'driver': 'drv_c15', 'env': {'PV_SCALE': '50', 'PV_NO_STATIC_MONITOR': '1'}, 'shards': 4}],
     'require': {'matrix.cases_ok': 500, 'matrix.cases_with_stale_out_pointer_and_address_reuse': 500, 'matrix.cases_with_8_byte_aligned_blocks': 500, 'faults.injected': 500, 'masks.enumerated': 2000, 'libc.seed_freed_once': 500, 'free_null.silent': 500,
                 'matrix.cell.decode.UNSUPPORTED.fault-1(hit)': 10, 'matrix.cell.decode_explicit.UNSUPPORTED.fault-1(hit)': 10, 'matrix.cell.load.UNSUPPORTED.fault-1(hit)': 10,
                 'matrix.cell.decode.CHECKSUM.fault-1(not reached)': 10, 'matrix.cell.decode.MULT_LANG.fault-1(not reached)': 5, 'matrix.cell.load.FORMAT.fault-1(hit)': 10},
@@ -301,6 +309,7 @@ PROPS['C13'] = {
              {'name': 'asan-dbg', 'flavour': 'asan-dbg', 'driver': 'drv_c13', 'env': {'PV_SCALE': '10'}, 'shards': 4, 'timeout': 1800},
              {'name': 'clang', 'flavour': 'clang-asan', 'driver': 'drv_c13', 'env': {'PV_SCALE': '10'}, 'shards': 4, 'timeout': 1800},
              {'name': 'native', 'flavour': 'asan-native', 'driver': 'drv_c13', 'env': {'PV_SCALE': '10'}, 'shards': 4, 'timeout': 1800},
+             {'name': 'msan', 'flavour': 'msan', 'driver': 'drv_c13', 'env': {'PV_SCALE': '25', 'PV_NO_STATIC_MONITOR': '1'}, 'shards': 4, 'timeout': 1800},
              {'name': 'O0', 'flavour': 'plain-O0', 'driver': 'drv_c13', 'env': {'PV_SCALE': '8'}, 'shards': 2, 'timeout': 1800},
              {'name': 'lto+locale', 'flavour': 'plain-lto', 'driver': 'drv_c13', 'env': {'PV_SCALE': '8', 'PV_LOCALE': 'C.utf8'}, 'shards': 2, 'timeout': 1800},
              {'name': 'Os', 'flavour': 'plain-Os', 'driver': 'drv_c13', 'env': {'PV_SCALE': '8'}, 'shards': 2, 'timeout': 1800},
